@@ -217,6 +217,31 @@ pub fn demos() -> Vec<Demo> {
             case: l2case(Prog { mods: vec![module(&["m"], vec![Item::Type(t)])] }, 8),
         });
     }
+    // F32 (C13): a singleton on an enum that is not copyable: get() moves out of a raw pointer
+    {
+        let e = EnumDef {
+            vis: true,
+            name: "Mode".into(),
+            doc: vec![],
+            base: "u32".into(),
+            variants: vec![Variant {
+                name: "A".into(),
+                value: None,
+                default: false,
+                doc: vec![],
+            }],
+            singleton: Some(Num::d(0x1000)),
+            copyable: false,
+            cloneable: false,
+            defaultable: false,
+        };
+        v.push(Demo {
+            property: "C13",
+            stem: "F32-enum-singleton-without-copyable",
+            prop: "C13/type-checks",
+            case: l2case(Prog { mods: vec![module(&["m"], vec![Item::Enum(e)])] }, 8),
+        });
+    }
     // F25 (C02/C13): a by-value `void` member: resolved size 0, emitted as c_void (size 1)
     {
         let t = ty("T", vec![f("a", Ty::n("u32")), f("v", Ty::n("void")), f("b", Ty::n("u32"))]);
